@@ -24,6 +24,12 @@ func extras(prop string) (map[string]any, []string) {
 			"CoSi leader logic is a stub (kyber ships none)",
 			"sampling; finite Byzantine menu",
 		}
+	case "C13":
+		return nil, []string{
+			"the model's notion of a correct share is 'untouched original produced by the real code from the honest dealing'; every alteration in the menu is semantic (adds the base point, changes an index, substitutes another party's value)",
+			"after a tampered dealing nothing further is asserted (the global challenge covers the whole dealing)",
+			"sampling; finite Byzantine menus",
+		}
 	case "C10":
 		return nil, []string{
 			"sampling within n<=6, t in 2..n, <=3000 events per run; both VSS variants on Ed25519",
